@@ -86,6 +86,15 @@ def obligations(tier):
     obs.append(Ob(id='in_tx', module=M, func='in_tx_history', params='w0: int, w1: int, w2: int, fail1: bool, stale: bool',
                   pre=['0 <= w0 <= 1 and 0 <= w1 <= 1 and 0 <= w2 <= 1'], timeout=T, group='compile_in_tx',
                   bound='compile on w0; compile_in_tx on w1 (may fail in the compiler); compile_in_tx on w2 with the latest or an older state'))
+    for wa in (0, 1):
+        for wb in (0, 1):
+            obs.append(Ob(id=f'in_tx_two.wa{wa}.wb{wb}', module=M, func='in_tx_two_history',
+                          params='t1: int, w1: int, f1: bool, t2: int, w2: int, f2: bool, t3: int, w3: int, f3: bool',
+                          args=f'{wa}, {wb}, t1, w1, f1, t2, w2, f2, t3, w3, f3',
+                          pre=['0 <= t1 <= 1 and 0 <= w1 <= 1 and 0 <= t2 <= 1 and 0 <= w2 <= 1 and 0 <= t3 <= 1 and 0 <= w3 <= 1'],
+                          timeout=T, group='compile_in_tx',
+                          bound=f'transaction A (db a) starts on worker {wa}, B (db b) on worker {wb}; three compile_in_tx calls, '
+                                'each for A or B on either worker, each may fail in the compiler'))
     obs.append(Ob(id='twin.history', module=M, func='history', params='w1: int, p1: int', post='not _', expect='cex',
                   pre=['0 <= w1 <= 1 and 0 <= p1 <= 4'], args='True, w1, 0, p1, 2, 5, 1, 2, 4, 0, 0, p1, 3, 0, 0, w1, 0',
                   timeout=60, group='twin'))
